@@ -46,6 +46,9 @@ struct Engine {
     // Execute a plan.  Pure function of the plan and the code under test.  May narrow the
     // plan in place to the concrete failing element (e.g. a sweep -> one delivery).
     Result (*execute)(MVal& plan, Stats& st);
+    // Execute every plan in a forked child (fresh process state for each run: cold function-local statics,
+    // no history).  Used by threadsim, where first-use static initialisation is part of what is explored.
+    bool fork_per_run = false;
 };
 
 // Progress marker for crash attribution (async-signal-safe write).
